@@ -503,11 +503,11 @@ type Record struct {
 	// ListedPods: the reconcile got as far as listing pods from the cache (CachePods is then that listing)
 	ListedPods bool
 
-	Actions []*Action
-	Err     error
-	Panic   interface{}
-	Stack   string
-	Crashed bool
+	Actions  []*Action
+	Err      error
+	Panic    interface{}
+	Stack    string
+	Crashed  bool
 	ListPerm uint64
 }
 
@@ -653,4 +653,23 @@ func (c *Cluster) Clone() *Cluster {
 		n.pvcIdx().Add(o.(*corev1.PersistentVolumeClaim).DeepCopy())
 	}
 	return n
+}
+
+// CacheSnapshot returns every object pointer currently in the caches with a deep copy of it.
+// After a reconcile the copies are compared with the (possibly replaced, but still referenced)
+// originals to detect a controller that mutates objects it got from a lister.
+type CachedObj struct {
+	Obj  runtime.Object
+	Copy runtime.Object
+}
+
+func (c *Cluster) CacheSnapshot() []CachedObj {
+	var out []CachedObj
+	for _, idx := range []cache.Indexer{c.podIdx(), c.setIdx(), c.pvcIdx()} {
+		for _, o := range idx.List() {
+			ro := o.(runtime.Object)
+			out = append(out, CachedObj{Obj: ro, Copy: ro.DeepCopyObject()})
+		}
+	}
+	return out
 }
